@@ -131,9 +131,23 @@ def parser_key_alphabet(prog, kv):
                     c = op_const(a)
                     if c is not None and "closure" in c:
                         clos = prog.bodies.get(c["closure"])
+                    if c is not None and "fn" in c:
+                        # a named predicate function (`take_while1(is_field_key_byte)`)
+                        tid = c["fn"].get("inst") or c["fn"]["def"]
+                        if tid in prog.bodies:
+                            clos = prog.bodies[tid]
                 if clos is None:
-                    raise charset.Opaque("take_while predicate is not a closure")
+                    raise charset.Opaque("take_while predicate is neither a closure nor a function of the workspace")
                 found.append((n.rsplit("::", 1)[1], clos, bb))
+    if not found:
+        # the key sub-parser may be a private parser function of its own (`field_name`): look one level down
+        for bb, t in kv.calls():
+            for a in t["args"]:
+                c = op_const(a)
+                tid = (c["fn"].get("inst") or c["fn"]["def"]) if c is not None and "fn" in c else None
+                if tid in prog.bodies and prog.bodies[tid].crate == kv.crate and tid != kv.id and "separated_pair" in " ".join(callee_names(t)):
+                    if t["args"].index(a) == 0:
+                        return parser_key_alphabet(prog, prog.bodies[tid])
     if len(found) != 1:
         raise charset.Opaque("expected exactly one take_while* in key_value_field, found %d" % len(found))
     how, clos, _ = found[0]
